@@ -16,6 +16,8 @@
 #include <pthread.h>
 #include <sched.h>
 #include <time.h>
+#include <sys/types.h>
+#include <sys/wait.h>
 #include <eav.h>
 #include <eav/auto_tld.h>
 
@@ -171,16 +173,37 @@ int main(int argc, char **argv)
     }
     free(line);
     if (npool == 0) { printf("{\"error\":\"empty pool\"}\n"); return 2; }
-    /* 1. sequential reference */
+    /* 1. sequential reference, computed in a forked child so that this process stays *cold*: any lazily initialised
+     *    state inside the library is first touched by the concurrently starting threads, not by the reference pass */
     ref = calloc((size_t)NKIND * MAXPOOL * 8, sizeof *ref);
-    e0 = malloc(sizeof *e0); eav_init(e0);
-    for (k = 0; k < NKIND; k++) for (i = 0; i < npool; i++) for (c = 0; c < ncfg(k); c++) do_call(k, i, c, e0, &ref[ref_idx(k, i, c)]);
-    /* determinism of the reference itself (a second sequential pass must agree) */
-    for (k = 0; k < NKIND; k++) for (i = 0; i < npool; i++) for (c = 0; c < ncfg(k); c++) {
-        out_t o; do_call(k, i, c, e0, &o);
-        if (memcmp(&o, &ref[ref_idx(k, i, c)], sizeof o) != 0) { printf("{\"error\":\"sequential reference not deterministic\",\"kind\":%d,\"i\":%d}\n", k, i); return 2; }
+    {
+        int fds[2]; pid_t pid; size_t total_b = (size_t)NKIND * MAXPOOL * 8 * sizeof *ref, got = 0; int st = 0;
+        if (pipe(fds) != 0) { perror("pipe"); return 2; }
+        fflush(stdout);
+        pid = fork();
+        if (pid == 0) {
+            size_t off = 0;
+            close(fds[0]);
+            e0 = malloc(sizeof *e0); eav_init(e0);
+            for (k = 0; k < NKIND; k++) for (i = 0; i < npool; i++) for (c = 0; c < ncfg(k); c++) do_call(k, i, c, e0, &ref[ref_idx(k, i, c)]);
+            /* determinism of the reference itself (a second sequential pass must agree) */
+            for (k = 0; k < NKIND; k++) for (i = 0; i < npool; i++) for (c = 0; c < ncfg(k); c++) {
+                out_t o; do_call(k, i, c, e0, &o);
+                if (memcmp(&o, &ref[ref_idx(k, i, c)], sizeof o) != 0) _exit(3);
+            }
+            eav_free(e0); free(e0);
+            while (off < total_b) { ssize_t w = write(fds[1], (char *)ref + off, total_b - off); if (w <= 0) _exit(4); off += (size_t)w; }
+            _exit(0);
+        }
+        close(fds[1]);
+        while (got < total_b) { ssize_t rd = read(fds[0], (char *)ref + got, total_b - got); if (rd <= 0) break; got += (size_t)rd; }
+        close(fds[0]);
+        waitpid(pid, &st, 0);
+        if (got != total_b || !WIFEXITED(st) || WEXITSTATUS(st) != 0) {
+            printf("{\"error\":\"sequential reference failed\",\"status\":%d}\n", st);
+            return (WIFEXITED(st) && WEXITSTATUS(st) == 3) ? 2 : 2;
+        }
     }
-    eav_free(e0); free(e0);
     /* 2. threads */
     pthread_barrier_init(&bar, NULL, (unsigned)T);
     for (t = 0; t < T; t++) {
